@@ -174,6 +174,10 @@ def build(spec, variant=None):
                 b.links = [tuple(x) for x in spec["links"]]
             else:
                 b.links = np.array([tuple(x) for x in spec["links"]], dtype=LINK_DT)
+        if spec["format"] != 1 and variant.get("stray_links"):
+            # a links attribute on a block whose format stores no link table (e.g. a block read from a by-track
+            # file and switched to the compact format): not part of the encoding, and not of its size either
+            b.links = np.array([(0, 1), (1, 2), (0, 2)][: 1 + len(spec["tracks"]) % 3], dtype=LINK_DT)
         items = [build_item(t, it, variant) for it in spec["tracks"]]
         if variant.get("via") == "assign":
             b.tracks = items
